@@ -1295,6 +1295,42 @@ def new_species_specs(rng, count):
     return out
 
 
+def distinct_individuals(rng, n, size):
+    """`size` valid individuals on n qubits, pairwise different (different layers and/or different parameter values), so
+    that an individual written back at a wrong index is visible."""
+    inds, seen = [], set()
+    k = 0
+    while len(inds) < size:
+        layers = [evqe.random_valid_layer(rng, n) for _ in range(rng.randint(1, 3))]
+        if rng.random() < 0.2:
+            layers[-1] = parameterless_layer(rng, n)
+        k += 1
+        values = [((k * 7 + j * 3) % 257) / 16.0 + (0.5 if j == 0 else 0.0) for j in range(sum(evqe.layer_n_parameters(l) for l in layers))]
+        p = {"n": n, "layers": layers, "values": values}
+        key = Table.key(p)
+        if key not in seen:
+            seen.add(key)
+            inds.append(p)
+    return inds
+
+
+def threshold_population_specs(rng, sizes, heavy=False):
+    """Populations just beyond the sizes code tends to batch at (33, 129, 257, 300, 513, 1025 individuals), pairwise
+    different, 1-2 qubits: mutation operators at p = 1 and p = 1/2 (layer removal and topological search need no optimiser;
+    heavy: also last-layer search with the stub optimiser, speciation and tournament selection)."""
+    out = []
+    for size in sizes:
+        n = rng.choice([1, 2, 2])
+        inds = distinct_individuals(rng, n, size)
+        steps = [{"op": "topo", "p": 1.0, "seed": rng.randint(0, 10**6), "inst": "topo"}, {"op": "removal", "p": 0.5, "seed": rng.randint(0, 10**6), "inst": "removal"},
+                 {"op": "topo", "p": 0.5, "seed": 0, "inst": "topo"}, {"op": "removal", "p": 1.0, "seed": rng.randint(0, 10**6)}]
+        if heavy:
+            steps += [{"op": "last", "p": 0.5, "seed": rng.randint(0, 10**6)}, {"op": "speciation", "thr": 2, "seed": rng.randint(0, 10**6)},
+                      {"op": "selection", "alpha": 0.125, "beta": 0.25, "tournament": 3, "seed": rng.randint(0, 10**6)}, {"op": "param", "p": 0.5, "seed": rng.randint(0, 10**6)}]
+        out.append({"n": n, "inds": inds, "reps": None, "steps": steps, "workers": rng.randint(1, 4), "order": [rng.randint(0, 7) for _ in range(24)], "positive": False, "evalmode": "hash"})
+    return out
+
+
 def precondition_specs(rng, count):
     """Selection NOT preceded by a speciation (documented precondition violated): EVQESelectionException after the
     evaluations and the count callback."""
